@@ -562,6 +562,7 @@ func (l *Log) buildQuery(ob *Obligation, extraPrelude string, focused bool) stri
 		addCmds(strPrelude)
 	}
 	addCmds(extraPrelude)
+	nPrelude := len(secs)
 	for i := 0; i < ob.index; i++ {
 		e := l.entries[i]
 		var text string
@@ -607,14 +608,20 @@ func (l *Log) buildQuery(ob *Obligation, extraPrelude string, focused bool) stri
 				continue
 			}
 			all := len(s.syms) > 0
+			any := false
 			for sym := range s.syms {
 				if !rel[sym] {
 					all = false
-					break
+				} else {
+					any = true
 				}
 			}
-			if all {
+			// prelude axioms (string theory, literal facts) are kept as soon as they talk about a relevant symbol
+			if all || (i < nPrelude && any) {
 				included[i] = true
+				for sym := range s.syms {
+					rel[sym] = true // so that the functions they mention get declared
+				}
 			}
 		}
 	}
